@@ -68,6 +68,54 @@ def gen_ops(rng, n, vals, big):
     return ops
 
 
+def gen_ops2(rng, n, vals, big):
+    """two-queue scripts: single-queue ops on A or B mixed with the operations that take a second Queue
+    (or the Queue itself) as argument"""
+    ops = []
+    sz = [0, 0]
+    for _ in range(n):
+        r = rng.random()
+        t = rng.randint(0, 1)
+        if r < 0.50:
+            o = gen_ops(rng, 1, vals, big)[0]
+            # keep a rough size estimate (only used to aim indices)
+            if o.startswith(("at:", "ah:", "ia:")): sz[t] += 1
+            elif o.startswith(("rh", "rt", "ra:")) and not o.startswith(("rhm", "rtm")): sz[t] = max(0, sz[t] - 1)
+            elif o.startswith("cl:"): sz[t] = 0
+            elif o.startswith("es:") and o.split(":")[2] == "1": sz[t] = int(o.split(":")[1])
+            ops.append(("b." if t else "") + o)
+        elif r < 0.60:
+            ops.append("sc:%d" % t); sz[0], sz[1] = sz[1], sz[0]
+        elif r < 0.67:
+            ops.append("pl:%d" % t); sz[t] = sz[1 - t]; sz[1 - t] = 0
+        elif r < 0.71:
+            ops.append("cq:%d" % t); sz[t] = sz[1 - t]
+        elif r < 0.75:
+            ops.append("as:%d" % t); sz[t] = sz[1 - t]
+        elif r < 0.78:
+            ops.append("eq")
+        elif r < 0.80:
+            ops.append("stw:%d" % t)
+        elif r < 0.82:
+            ops.append("enw:%d" % t)
+        else:
+            self_ = rng.choice([0, 0, 1])
+            src = sz[t] if self_ else sz[1 - t]
+            start = rng.choice([0, 0, 1, 2, src // 2, max(0, src - 1), src, src + 1])
+            num = rng.choice([0, 1, 2, 3, src, 5000, 5000])
+            if src > 24:
+                num = min(num, 3)      # keep the queues small (a queue appended to itself doubles)
+            k = rng.choice(["atq", "ahq", "iiq"])
+            added = max(0, min(num, src - start))
+            if k == "iiq":
+                idx = rng.choice([0, 1, 2, sz[t] // 2, max(0, sz[t] - 1), sz[t], sz[t] + 1])
+                ops.append("iiq:%d:%d:%d:%d:%d" % (t, self_, idx, start, num))
+            else:
+                ops.append("%s:%d:%d:%d:%d" % (k, t, self_, start, num))
+            sz[t] += added
+    return ops
+
+
 class CHECK(vlib.Check):
     prop = "C16"
     prop_file = "Properties_C16.v"
@@ -76,15 +124,18 @@ class CHECK(vlib.Check):
     modelled = ("util/Queue.h: representation (_queue kind, _itemCount, _headIndex, _tailIndex, _queueSize, raw slots), "
                 "NextIndex/PrevIndex/InternalizeIndex, EnsureSizeAux, AddTail/AddHead, RemoveHead/RemoveTail(+Multi), "
                 "RemoveItemAt, InsertItemAt, ReplaceItemAt, Clear, Swap, ReverseItemOrdering, Normalize (effect level), "
-                "IndexOf/LastIndexOf, AddTailMulti/AddHeadMulti/InsertItemsAt (array forms), CopyFrom, Remove*InstanceOf. "
-                "Not modelled: Sort/Merge, SwapContents, move construction, iterators, AdoptRawDataArray.")
+                "IndexOf/LastIndexOf, AddTailMulti/AddHeadMulti/InsertItemsAt (array forms and Queue forms incl. a Queue passed as "
+                "its own argument), CopyFrom, operator=, Remove*InstanceOf, the unused in-object array, and on two queues: "
+                "SwapContents/SwapContentsAux, Plunder (move), operator==, StartsWith/EndsWith. "
+                "Not modelled: Sort/Merge, iterators, AdoptRawDataArray/ReleaseRawDataArray.")
     premises = ["memory safety and object lifetime of the C++ (observed by ASan/UBSan in the harness only)",
                 "indices/sizes below 2^32 (uint32 wrap-around of counts is not modelled)"]
     rule = ("operation scripts over Queue<int> (trivial) and Queue<Tracked> (owning) generated from random.Random(seed); "
             "after EVERY operation the result, user-visible items, _itemCount/_headIndex/_tailIndex/_queueSize, storage kind "
-            "and (owning) all raw slots are compared with the extracted L1 model; the harness's own ideal-vector oracle is "
-            "evaluated as well.  Non-trivial = the script wraps the ring or reallocates (contains a head insertion or removal "
-            "plus >= 4 additions, or an EnsureSize).")
+            "and (owning) all raw slots incl. the unused in-object array are compared with the extracted L1 model (of both queues "
+            "in the two-queue streams); the harness's own ideal-vector oracle is evaluated as well.  Non-trivial = the script wraps "
+            "the ring or reallocates (contains a head insertion or removal plus >= 4 additions, or an EnsureSize); two-queue "
+            "scripts: contain an operation taking a Queue argument.")
 
     def gen_cases(self, rng, tier):
         n = 1500 if tier == "quick" else 20000
@@ -94,6 +145,10 @@ class CHECK(vlib.Check):
             kind = "T" if i % 2 == 0 else "O"
             length = rng.choice([3, 6, 10, 16, 25, 40])
             out.append(("random", kind + "|" + ";".join(gen_ops(rng, length, vals, 12 if tier == "quick" else 40))))
+        for i in range(n // 2):
+            kind = "T2" if i % 2 == 0 else "O2"
+            length = rng.choice([4, 8, 12, 20, 30])
+            out.append(("random2", kind + "|" + ";".join(gen_ops2(rng, length, vals, 12 if tier == "quick" else 40))))
         # directed: boundaries of the small buffer and of the grow policy, wrap-around, shrink
         for kind in "TO":
             for a in range(0, 9):
@@ -102,9 +157,35 @@ class CHECK(vlib.Check):
                     for tail in ("es:0:1:0:1", "es:1:1:0:1;es:4:1:0:0", "es:2:0:0:1;es:6:1:0:0", "rtm:2;es:%d:1:0:0" % (a + 1),
                                  "rhm:1;nm", "cl:0;es:3:1:0:0", "ra:1;ia:1:7;rv:0:99", "es:%d:1:2:1;es:%d:1:0:0" % (max(0, a - 2), a + 2)):
                         out.append(("directed", kind + "|" + base.strip(";") + ";" + tail))
+        # directed, two queues: every pairing of storage kinds (none / in-object / heap) and of item counts around
+        # the in-object size for SwapContents, Plunder, assignment; then shrink back into the in-object array and grow
+        # (stale items must not reappear); a Queue passed as its own argument with and without spare capacity
+        def fill(pref, k, how):
+            adds = [pref + "at:%d" % (10 * (1 if pref else 2) + i) for i in range(k)]
+            if how == "heap":
+                adds = [pref + "es:9:0:0:0"] + adds
+            elif how == "wrap" and k > 0:
+                adds = adds + [pref + "rh", pref + "at:99"]
+            return adds
+        for kind in ("T2", "O2"):
+            for ka in (0, 1, 2, 3, 4, 6):
+                for kb in (0, 1, 3, 5):
+                    for ha in ("plain", "heap", "wrap"):
+                        for binop in ("sc:0", "sc:1", "pl:0", "pl:1", "as:0", "cq:1"):
+                            base = fill("", ka, ha) + fill("b.", kb, "plain") + [binop]
+                            tail = ["es:1:1:0:1", "es:3:1:0:0", "b.es:0:1:0:1", "b.es:3:1:0:0", "eq"]
+                            out.append(("directed2", kind + "|" + ";".join(base + tail)))
+            for k in (1, 2, 3, 4, 7):
+                for spare in (0, 1):
+                    for o in ("ahq:0:1:0:5000", "ahq:0:1:1:2", "atq:0:1:0:5000", "atq:0:1:1:1", "iiq:0:1:1:0:5000", "iiq:0:1:0:1:2",
+                              "iiq:0:1:9:0:2", "ahq:0:0:0:5000", "atq:0:0:1:2", "iiq:0:0:1:0:5000", "stw:0", "enw:0", "stw:1", "enw:1"):
+                        pre = (["es:%d:0:0:0" % (3 * k + 2)] if spare else []) + ["at:%d" % (i + 1) for i in range(k)]
+                        out.append(("directed2", kind + "|" + ";".join(pre + ["b.at:1", "b.at:2", o, "eq"])))
         return out
 
     def nontrivial(self, case):
+        if case.startswith(("T2|", "O2|")):
+            return any(x in case for x in ("sc:", "pl:", "as:", "cq:", "atq:", "ahq:", "iiq:"))
         return ("es:" in case) or (case.count("at:") + case.count("ah:") >= 4 and ("ah:" in case or "rh" in case))
 
     def distribution(self, sc):
@@ -113,6 +194,8 @@ class CHECK(vlib.Check):
             d.setdefault("stream:" + s, 0)
             d["stream:" + s] += 1
             for o in c.split("|", 1)[1].split(";"):
+                if o.startswith("b."):
+                    o = o[2:]
                 k = "op:" + o.split(":")[0]
                 d[k] = d.get(k, 0) + 1
         return d
